@@ -235,6 +235,71 @@ def eval_writer(typed, header, nrec):
     return info, failures
 
 
+class RecordingOpen:
+    """While active, maflib.writer's open() and gzip.open() hand out handles that record the text passed to write()
+    (and forward it): what a writer opened by MafWriter.from_path has emitted at any moment."""
+
+    def __enter__(self):
+        import builtins
+        import gzip
+        import maflib.writer as W
+        self.W, self.written = W, []
+        outer = self
+
+        class Recording:
+            def __init__(self, h):
+                self._h = h
+
+            def write(self, text):
+                outer.written.append(text)
+                return self._h.write(text)
+
+            def __getattr__(self, n):
+                return getattr(self._h, n)
+
+        class GzipProxy:
+            def open(self, *a, **kw):
+                return Recording(gzip.open(*a, **kw))
+
+            def __getattr__(self, n):
+                return getattr(gzip, n)
+        self.saved_gzip = W.gzip
+        W.gzip = GzipProxy()
+        W.open = lambda *a, **kw: Recording(builtins.open(*a, **kw))
+        return self
+
+    def text(self):
+        return "".join(self.written)
+
+    def __exit__(self, *a):
+        self.W.gzip = self.saved_gzip
+        del self.W.open
+
+
+def eval_writer_path(typed, header, nrec, gz):
+    """The same through MafWriter.from_path (plain or .gz): the handle is the one from_path opens."""
+    from maflib.header import MafHeader
+    from maflib.validation import ValidationStringency as VS
+    from maflib.writer import MafWriter
+    failures = []
+    info = {"steps": []}
+    with tempfile.TemporaryDirectory() as tmp, RecordingOpen() as ro:
+        w = MafWriter.from_path(os.path.join(tmp, "out.maf" + (".gz" if gz else "")), MafHeader.from_lines(header, validation_stringency=VS.Silent),
+                                validation_stringency=VS.Silent)
+        for j in range(nrec):
+            rec = SC.typed_record(None, "T", "N", "1", 10 + j, 10 + j) if typed else SC.untyped_record("T", "N", "1", str(10 + j), str(10 + j))
+            before = ro.text()
+            w += rec
+            new = ro.text()[len(before):]
+            info["steps"].append((j, len(new), new.endswith(str(rec) + "\n")))
+            if not new.endswith(str(rec) + "\n"):
+                failures.append({"what": "an unsorted writer opened by from_path(%s) had not passed the record's line to its handle when write() returned" % ("*.gz" if gz else "plain path"),
+                                 "kind": "writer-deferred-path", "header": header, "record_index": j, "emitted": new[-120:], "typed": typed, "records": nrec, "gz": gz})
+                break
+        w.close()
+    return info, failures
+
+
 def fasta_index_file(tmp, contigs):
     import os
     fai = os.path.join(tmp, "ref.fa.fai")
@@ -286,6 +351,62 @@ def eval_overlap(n_inputs, contigs, by_barcodes, items, fasta=False):
         if tmp:
             shutil.rmtree(tmp, ignore_errors=True)
     return info, failures
+
+
+def eval_overlap_unkeyable(layout, by_barcodes):
+    """Inputs of scheme-less MafRecords some of which cannot be keyed (position text that is not a number): whatever the
+    library does with them (at present it fails with KeyError when it meets one), the pulls per input stay within one
+    record of what has been emitted - at construction and after every group.  `layout`: per input, a list of start
+    positions (int) or None for an unkeyable record."""
+    from maflib.overlap_iter import LocatableOverlapIterator
+    inputs = [[SC.untyped_record("T", "N", "1", str(p) if p is not None else "n/a", str(p + 1) if p is not None else "n/a") for p in inp] for inp in layout]
+    srcs = [CountingIter(inp) for inp in inputs]
+    where = {"kind": "overlap-eager-unkeyable", "layout": layout, "by_barcodes": by_barcodes}
+    info = {"exc": None, "pulled": None, "emitted": None}
+    emitted = [0] * len(inputs)
+    bad = None
+    try:
+        it = LocatableOverlapIterator(srcs, by_barcodes=by_barcodes)
+        if any(s.pulled > 1 for s in srcs):
+            bad = "construction pulled %s records from the inputs" % [s.pulled for s in srcs]
+        steps = 0
+        while bad is None and steps < 50:
+            try:
+                g = next(it)
+            except StopIteration:
+                break
+            steps += 1
+            for i, slot in enumerate(g):
+                emitted[i] += len(slot)
+            for i, sc in enumerate(srcs):
+                if sc.pulled > emitted[i] + 1:
+                    bad = "after group %d input %d had been pulled %d times for %d emitted records" % (steps, i, sc.pulled, emitted[i])
+    except Exception as e:  # noqa: how the library treats a record it cannot key is not this property's subject; and a
+        # group that was being assembled when iteration stopped has been pulled but not emitted: nothing to judge then
+        info["exc"] = exc_name(e)
+    info["pulled"], info["emitted"] = [sc.pulled for sc in srcs], emitted
+    return info, ([dict(where, what="overlap iteration is not incremental on inputs with records that cannot be keyed: " + bad)] if bad else [])
+
+
+def overlap_unkeyable_cases(ctx, out, rng):
+    for _ in range(ctx.scale(40, 300)):
+        n_inputs = rng.choice([1, 2, 2, 3])
+        layout = []
+        for _i in range(n_inputs):
+            pos = sorted(rng.randrange(1, 30) for _k in range(rng.randrange(0, 6)))
+            row = []
+            for p in pos:
+                while rng.random() < 0.3:
+                    row.append(None)
+                row.append(p)
+            while rng.random() < 0.3:
+                row.append(None)
+            layout.append(row)
+        out.evaluations += 1
+        info, fails = eval_overlap_unkeyable(layout, rng.random() < 0.5)
+        out.failures += fails
+        out.distribution["overlap inputs with unkeyable records: %s" % (info["exc"] or "iterated to the end")] += 1
+        out.nontrivial.add(("unkeyable", repr(layout)))
 
 
 RELS = ["Equality", "Intersects", "Subset"]
@@ -475,6 +596,15 @@ def writer_cases(ctx, out, rng):
         _info, failures = eval_writer(typed, header, rng.randrange(1, 6))
         out.failures += failures
         out.nontrivial.add(("writer", tuple(header), typed))
+    for gz in (False, True):
+        for typed in (False, True):
+            for extra in ([], ["#sort.order Coordinate"]):
+                header = ["#version gdc-1.0.0"] + ([] if typed else ["#annotation.spec lab"]) + extra
+                out.evaluations += 1
+                _info, failures = eval_writer_path(typed, header, 3, gz)
+                out.failures += failures
+                out.nontrivial.add(("writer-path", tuple(header), typed, gz))
+                out.distribution["writer opened by from_path(%s)" % ("*.gz" if gz else "plain")] += 1
 
 
 def overlap_cases(ctx, out, rng):
@@ -562,6 +692,7 @@ def run(ctx):
     reader_cases(ctx, out, rng)
     writer_cases(ctx, out, rng)
     overlap_cases(ctx, out, rng)
+    overlap_unkeyable_cases(ctx, out, ctx.rng("c19-unkeyable"))
     sorter_cases(ctx, out, rng)
     # own streams: the cases above are unchanged
     reader_factory_cases(ctx, out, ctx.rng("c19", "reader-factories"))
@@ -647,6 +778,21 @@ def replay_case(ctx, failure):
             print("implementation: pulled per input after construction %s" % info.get("pulled_after_init"))
             for step, ids, pulled, allowed in info["steps"][:12]:
                 print("implementation: sub-group %d = record ids %s; pulled per input %s (allowed %s)" % (step, ids, pulled, allowed))
+    elif kind == "overlap-eager-unkeyable":
+        if "layout" not in f:
+            return None
+        info, failures = eval_overlap_unkeyable(f["layout"], f.get("by_barcodes", False))
+        print("executed: LocatableOverlapIterator over %d input(s) of scheme-less records, start positions %s (None = a position text that is not a number)" % (len(f["layout"]), f["layout"]))
+        print("implementation: %s; pulled per input %s, emitted per input %s" % (info["exc"] or "iterated to the end", info["pulled"], info["emitted"]))
+        return failures
+    elif kind == "writer-deferred-path":
+        if not all(k in f for k in ("header", "typed", "records", "gz")):
+            return None
+        print("executed: MafWriter.from_path(%s) (unsorted), %d %s record(s) written with +=, the text passed to the handle's write() observed after every +=" % (
+            "out.maf.gz" if f["gz"] else "out.maf", f["records"], "typed" if f["typed"] else "scheme-less"))
+        info, failures = eval_writer_path(f["typed"], f["header"], f["records"], f["gz"])
+        print("implementation: per record (index, chars passed to the handle by that +=, ends with the record's line): %s" % info["steps"])
+        return failures
     elif kind == "sorter-not-spilling-after-fault":
         keys = f.get("keys")
         if not (isinstance(keys, list) and isinstance(f.get("capacity"), int) and "always_spill" in f):
